@@ -40,7 +40,7 @@ def bounds(tier):
 
 
 def tasks(tier):
-    t = [dict(part='A', entry=e, mode=m) for e in ENTRIES for m in ('bytes', 'utf-8')]
+    t = [dict(part='A', entry=e, mode=m, tier=tier) for e in ENTRIES for m in ('bytes', 'utf-8')]
     try:
         from mc import c04b
         t += c04b.tasks(tier)
@@ -250,12 +250,19 @@ def run_case(task, placement, pending, received, ending, W, setup='setter'):
     return obs, None, flags
 
 
+PENDING_T = PENDING + ['ab', 'xxab', 'a', 'abxab', 'xaxbx', 'abxxxxxxxxxx']
+RECEIVED_T = RECEIVED + [('ab',), ('x', 'a', 'b'), ('xa', 'bx'), ('a',), ('zz',), ('a', 'b', 'y')]
+WINDOWS_T = [None, 1, 2, 3, 5]
+TIER = ['quick']
+
+
 def cases():
+    th = TIER[0] != 'quick'
     for placement in PLACEMENTS:
-        for pending in PENDING:
-            for received in RECEIVED:
+        for pending in (PENDING_T if th else PENDING):
+            for received in (RECEIVED_T if th else RECEIVED):
                 for ending in ENDINGS:
-                    for W in WINDOWS:
+                    for W in (WINDOWS_T if th else WINDOWS):
                         yield placement, pending, received, ending, W
 
 
@@ -264,6 +271,7 @@ def run_task(task):
         from mc import c04b
         return c04b.run_task(task)
     install_clock()
+    TIER[0] = task.get('tier', 'quick')
     acc = Acc()
     seen = set()
     for placement, pending, received, ending, W in cases():
